@@ -71,7 +71,30 @@ def main():
                         r[0] = not r[0]
                     sm[sid] = r
         # the position-zero check must range over exactly the unmasked sites
-        apz = any(int(round(float(p))) == 0 and not mb[i] for i, p in enumerate(ts.tables.sites.position))
+        legacy = run.rng.random() < 0.35
+        if legacy:
+            # positions at k + 0.5 and colliding positions exercise the legacy rule: round half to even, then bump
+            tb = ts.dump_tables()
+            newpos = sorted(set([float(run.rng.choice([0.5, 1.5, 2.5, 2.6, 3.5, 4.4, 4.5, 6.5])) for _ in range(tb.sites.num_rows)]))
+            if len(newpos) == tb.sites.num_rows and newpos[-1] < tb.sequence_length:
+                tb.sites.position = np.array(newpos)
+                try:
+                    ts = tb.tree_sequence()
+                    t = tb
+                except tskit.LibraryError:
+                    legacy = False
+            else:
+                legacy = False
+        def legacy_pos(ps):
+            out = []
+            last = 0
+            for x in ps:
+                v = max(int(round(x)), last + 1)      # round half to even, then strictly increasing from 1
+                out.append(v)
+                last = v
+            return out
+        tpos = legacy_pos([float(x) for x in ts.tables.sites.position]) if legacy else [int(round(float(x))) for x in ts.tables.sites.position]
+        apz = any(tpos[i] == 0 and not mb[i] for i in range(ns))
         desc = {"case": "seed=%d case=%d" % (run.seed, k), "tables": O.brief(t), "groups": groups, "individuals": inds,
                 "site_mask": None if mask is None else [bool(x) for x in mb], "site_mask_type": mkind, "sample_mask": skind,
                 "isolated_as_missing": iam}
@@ -79,7 +102,7 @@ def main():
         out = io.StringIO()
         try:
             ts.write_vcf(out, individuals=inds, site_mask=mask, sample_mask=smask, isolated_as_missing=iam,
-                         allow_position_zero=apz)
+                         allow_position_zero=apz, **({"position_transform": "legacy"} if legacy else {}))
         except Exception as e:
             run.violation("write_vcf accepts every documented mask representation", desc, "%s: %s" % (type(e).__name__, e), "no exception")
             break
@@ -105,8 +128,9 @@ def main():
             if ref != site.ancestral_state:
                 run.violation("REF is the ancestral state", dict(desc, site=sid), ref, site.ancestral_state)
             pos = int(f[1])
-            if pos != int(round(site.position)) and pos <= last_pos:
-                run.violation("POS increasing", dict(desc, site=sid), pos, last_pos)
+            if pos != tpos[sid]:
+                run.violation("POS is the transformed site position (default: rounded; legacy: rounded half-even then made increasing)",
+                              dict(desc, site=sid, legacy=legacy, position=float(site.position)), pos, tpos[sid])
             last_pos = pos
             if f[2] != str(sid) or f[6] != "PASS" or f[8] != "GT":
                 run.violation("fixed fields ID/FILTER/FORMAT", dict(desc, site=sid), f[:9], [str(sid), "PASS", "GT"])
